@@ -308,7 +308,7 @@ Proof. intros [|f fl]; unfold region_rows; [reflexivity|]. now rewrite map_lengt
 Lemma stop_unfold : forall c s, started s = true ->
   stop c s =
   let '(sr, raised) := refresh c (stop_s1 c s) in
-  let s2 := after_refresh c s sr in
+  let s2 := after_refresh c s sr raised in
   let s3 := if raised then s2 else emit s2 [NL] in
   let s4 := emit (set_flags s3 false (pred (hooks s3)) false) cursor_on in
   if raised then (s4, true)
@@ -345,10 +345,10 @@ Proof.
   destruct (refresh c s1) as [sr raised]. cbn [fst snd] in R.
   destruct R as (R1 & R2 & R3 & R4 & R5 & R6 & (F1 & F2 & F3) & R7 & R8). subst raised.
   (* the inner finally only touches vertical_overflow *)
-  set (s2 := after_refresh c s sr).
+  set (s2 := after_refresh c s sr false).
   assert (Y : out s2 = out sr /\ g_printed s2 = g_printed sr /\ g_shown s2 = g_shown sr /\ g_live s2 = g_live sr
               /\ hooks s2 = hooks sr /\ shape s2 = shape sr).
-  { subst s2. unfold after_refresh. destruct (c_restores_ovf c); repeat split. }
+  { subst s2. unfold after_refresh. destruct (restores c false); repeat split. }
   destruct Y as (Y1 & Y2 & Y3 & Y4 & Y5 & Y6).
   unfold T, P_rows, R_rows, shape_ok in R2, R3, R4, R5.
   rewrite <- Y1, <- Y2, <- Y4, <- Y3 in R2. rewrite <- Y1 in R3. rewrite <- Y1, <- Y4, <- Y3 in R4.
@@ -527,14 +527,14 @@ Qed.
 
 Example ops_ok_nonvacuous :
   (* frames that grow, shrink, become empty and exceed the page; ellipsis; prints and a log *)
-  let c := mkCfg false false OEllipsis 12 3 None None true false false false false false false false in
+  let c := mkCfg false false OEllipsis 12 3 None None true false false false false false false false false in
   ops_ok c (st0 c (w_lines 2))
     [Print (w_lines 1); Start; Refresh; Print (w_lines 4); Update (w_lines 7) true; Log (w_lines 1);
      Update [] false; Print (w_lines 1); Update (w_lines 1) true; Start; Stop; Print (w_lines 1)] = true.
 Proof. vm_compute. reflexivity. Qed.
 
 Example ops_ok_nonvacuous_progress :
-  let c := mkCfg true true OEllipsis 12 4 None None true false false false false false false false in
+  let c := mkCfg true true OEllipsis 12 4 None None true false false false false false false false false in
   ops_ok c (st0 c (w_lines 2))
     [Start; Print (w_lines 5); Update (w_lines 3) true; Update [] true; Log (w_lines 1); Stop] = true.
 Proof. vm_compute. reflexivity. Qed.
